@@ -118,7 +118,8 @@ def _start_line(ck, fname, abnf_name, tuple_name, group_refs):
     fi = ck.func(HU, fname)
     param = [p for p in fi.params()][0]
     env = eval_abnf(ck.repo)
-    facts = must_facts(fi.cfg)
+    from ..x_resolve import lazy_widened as _lw
+    facts = _lw(fi)   # named booleans, explaining locals and walrus tests are looked through
     # the constructor call that builds the result
     ctors = [(nd, c) for nd, c in fi.cfg.find(lambda x: isinstance(x, ast.Call) and q.dotted(x.func) == tuple_name)]
     ck.floor("C43.start-line", len(ctors), 1, "%s(..) constructions in %s" % (tuple_name, fname))
@@ -265,6 +266,9 @@ def lint_total(ck, fi, extra_safe=()):
         if in_annotation(pm, x):
             continue
         F = set(facts[nd.id])
+        if any(":=" in f_[0] for f_ in F):
+            from ..x_resolve import strip_walrus
+            F = strip_walrus(F)
         F |= set(short_circuit_facts(pm, x))       # guards given by an enclosing and/or/conditional expression in value position
         F |= set(named_bool_facts(fi, F))          # `flag = len(v) >= 2 and ...; if flag:` carries the atoms of its definition
         if isinstance(x, ast.Assign):
@@ -286,6 +290,23 @@ def lint_total(ck, fi, extra_safe=()):
             elif isinstance(t, (ast.Tuple, ast.List)) and isinstance(x.value, (ast.Tuple, ast.List)):
                 n += 1
                 ck.ob("C43.total", fi, x, len(t.elts) == len(x.value.elts), "literal tuple unpack of equal arity")
+            elif isinstance(t, (ast.Tuple, ast.List)) and isinstance(x.value, ast.IfExp):
+                # each arm is judged under the condition that selects it
+                for arm, pol_ in ((x.value.body, True), (x.value.orelse, False)):
+                    Fa = set(F) | set(short_circuit_facts(pm, arm))
+                    n += 1
+                    if isinstance(arm, (ast.Tuple, ast.List)):
+                        ck.ob("C43.total", fi, arm, len(arm.elts) == len(t.elts), "literal tuple of equal arity")
+                    elif isinstance(arm, ast.Call) and q.call_attr(arm) in ("partition", "rpartition"):
+                        ck.ob("C43.total", fi, arm, len(t.elts) == 3, "partition() always yields 3 items")
+                    elif isinstance(arm, ast.Call) and q.call_attr(arm) in ("split", "rsplit"):
+                        sep = arm.args[0] if arm.args else None
+                        mx = arm.args[1] if len(arm.args) > 1 else q.kwarg(arm, "maxsplit")
+                        recv = q.unparse(arm.func.value)
+                        ok = (isinstance(mx, ast.Constant) and mx.value == len(t.elts) - 1 and isinstance(sep, ast.Constant) and any(p_ and tt == "%s in %s" % (q.unparse(sep), recv) for tt, p_ in Fa))
+                        ck.ob("C43.total", fi, arm, ok, "unpacking %s into %d names needs the '%s in %s' condition on that arm" % (q.unparse(arm), len(t.elts), q.unparse(sep) if sep else "?", recv))
+                    else:
+                        raise AnalysisError("C43.total: unmodelled tuple unpack %s in %s" % (q.unparse(x), fi.qualname))
             elif isinstance(t, (ast.Tuple, ast.List)) and isinstance(x.value, ast.Call) and q.call_attr(x.value) in ("groups", "group") and isinstance(x.value.func.value, ast.Name):
                 m = x.value.func.value.id
                 ism, ng = _is_match_obj(ck, fi, m)
@@ -396,7 +417,7 @@ def rule_total(ck):
         n += 1
         ok = base == 8 and gl.subset_of(Rx.from_pattern("[0-3][0-7][0-7]"))
         ck.ob("C43.total", ur, c, ok, "int(m[%d], 8): capture group %d of the escape pattern is three octal digits <= 377 (int() and chr() cannot fail)" % (k, k))
-        f = must_facts(ur.cfg)[nd.id]
+        f = set(must_facts(ur.cfg)[nd.id]) | set(short_circuit_facts(q.parent_map(ur.node), c))   # if-statement or conditional expression
         ck.ob("C43.total", ur, c, any(pol and t in (q.unparse(op), q.unparse(op0)) for t, pol in f), "the octal branch is taken only when that group participated")
     sh = ck.func(HU, "split_host_and_port")
     n += lint_total(ck, sh)
